@@ -48,11 +48,47 @@ def pick_variables(rng, g_valid, declared):
     return out
 
 
+def run_with_is_type_of(doc, variables, vf, seed):
+    import random as _random
+    from graphql import execute
+    from ..gen.schemas import rich_is_type_of
+    from ..mon import aharness
+    from ..mon.loop import Run, Scheduler
+    schema = rich_is_type_of(aharness.is_type_of_factory)
+    sched = Scheduler(_random.Random(seed), policy=['fifo', 'lifo', 'random'][seed % 3])
+    run = Run(sched)
+    hz = aharness.Harness(sched, vf, seed, p_async=0.3, p_item_async=0.0, p_iter=0.0, p_type_async=0.5, schema=schema, hide_typename=True)
+    aharness._current[0] = hz
+
+    async def main():
+        r = execute(schema, doc, None, variable_values=variables, field_resolver=hz.resolver)
+        if hasattr(r, '__await__'):
+            r = await r
+        return r
+    try:
+        run.drive(main)
+        if run.exception is not None:
+            raise run.exception
+        if run.deadlock:
+            raise RuntimeError('logical deadlock')
+        return run.result
+    finally:
+        run.close()
+
+
 def compare_run(ctx, schema, doc, case, variables, fault_rate, counter):
     vf = make_value(schema, case["seed"], fault_rate)
     calls = []
     try:
-        res = execute_sync(schema, doc, None, variable_values=variables, field_resolver=make_resolver(vf, calls))
+        if schema is rich() and case["seed"] % 6 == 5 and fault_rate == 0:
+            # (conforming data only: with injected faults and awaitables the *set* of reported errors legitimately
+            # depends on the completion order - C03/C07 - so the exact comparison below would not be sound)
+            # abstract types resolved through is_type_of (no __typename on the values, no type resolver), some of the
+            # answers awaitable: run on the controlled loop, first-come-first-served
+            res = run_with_is_type_of(doc, variables, vf, case["seed"])
+            ctx.count("runs_resolving_types_through_is_type_of")
+        else:
+            res = execute_sync(schema, doc, None, variable_values=variables, field_resolver=make_resolver(vf, calls))
     except Exception as e:  # noqa: BLE001
         ctx.violation(f"execute-crash:{type(e).__name__}", {"source": case["source"][:500], "variables": srepr(variables)[:300], "exception": repr(e)[:200]}, case)
         return
